@@ -65,7 +65,7 @@ def run(ctx):
     ctx.cov["pool_events_validated"] = sum(len(t["log"]) for t in traces)
     ctx.cov["objects_tracked"] = sum(len(set(e["o"] for e in t["log"])) for t in traces)
     ctx.cov["concurrent_calls"] = sum(t["calls"] for t in traces)
-    ctx.cov["traces_by_mode"] = {m: sum(1 for t in traces if t["mode"] == m) for m in ("history", "stress", "retx", "tcpbw", "dupcache", "bwpark")}
+    ctx.cov["traces_by_mode"] = {m: sum(1 for t in traces if t["mode"] == m) for m in ("history", "stress", "retx", "tcpbw", "dupcache", "bwpark", "sweeprace")}
     for clause, idxs in sorted(bad.items()):
         ts = [traces[i] for i in idxs]
         t0 = min(ts, key=lambda t: len(t["log"]))
